@@ -16,6 +16,7 @@ structure Resolved (u : UrlOracle) (d : OidcDoc) : Prop where
     (d.authorizationUri ≠ [] ∧ d.tokenUri ≠ [] ∧
       ((∃ s, d.jwks = .inline s ∧ s ≠ []) ∨ (∃ uri n, d.jwks = .fetcher uri n ∧ uri ≠ [])))
   logout : ∀ lo, d.logout = some lo → lo.path ≠ [] ∧ lo.path ≠ B "/" ∧ (u.parse d.callbackUri).getD [] ≠ lo.path
+  cookiePrefix : isCookieNameToken d.cookiePrefix = true
 
 theorem mapM'_mem {α β} (f : α → Option β) (l : List α) (r : List β) (h : mapM' f l = some r) :
     ∀ b ∈ r, ∃ a ∈ l, f a = some b := by
@@ -109,15 +110,18 @@ theorem step_resolved (u : UrlOracle) (d : OidcDoc) (f' : FilterDoc) (h : resolv
   have fieldsEq : (applyDefaults d).configurationUri = d.configurationUri ∧ (applyDefaults d).authorizationUri = d.authorizationUri ∧
       (applyDefaults d).tokenUri = d.tokenUri ∧ (applyDefaults d).jwks = d.jwks := by
     unfold applyDefaults; split <;> simp
-  have build : ∀ (hurls : endpointsOk d = true)
+  have hpfx : (applyDefaults d).cookiePrefix = d.cookiePrefix := by unfold applyDefaults; split <;> rfl
+  have build : ∀ (hurls0 : (endpointsOk d && isCookieNameToken d.cookiePrefix) = true)
       (hlo : ∀ lo, (applyDefaults d).logout = some lo → lo.path ≠ [] ∧ lo.path ≠ B "/" ∧ (u.parse (applyDefaults d).callbackUri).getD [] ≠ lo.path)
       (hv' : validOidc (applyDefaults d) = true), Resolved u (applyDefaults d) := by
-    intro hurls hlo hv'
+    intro hurls0 hlo hv'
+    have hurls : endpointsOk d = true := by simp only [Bool.and_eq_true] at hurls0; exact hurls0.1
+    have hck : isCookieNameToken d.cookiePrefix = true := by simp only [Bool.and_eq_true] at hurls0; exact hurls0.2
     unfold validOidc at hv'
     simp only [Bool.and_eq_true, decide_eq_true_eq, Bool.not_eq_true', ne_eq] at hv'
     obtain ⟨⟨⟨⟨⟨⟨⟨h1, h2⟩, h3⟩, h4⟩, h5⟩, h6⟩, h7⟩, h8⟩ := hv'
     refine { openid := hopen, callbackSet := by simpa using h1, clientId := ⟨by simpa using h2, by simpa using h3⟩, secret := ?_,
-             idHeader := ?_, accessHeader := ?_, endpoints := ?_, logout := hlo }
+             idHeader := ?_, accessHeader := ?_, endpoints := ?_, logout := hlo, cookiePrefix := by rw [hpfx]; exact hck }
     · cases hs : (applyDefaults d).secret with
       | unset => simp [hs] at h4
       | literal s => simp [hs] at h4; exact Or.inl ⟨s, rfl, h4⟩
@@ -149,7 +153,7 @@ theorem step_resolved (u : UrlOracle) (d : OidcDoc) (f' : FilterDoc) (h : resolv
     · simp only [hroot, Bool.false_eq_true, if_false, Option.some.injEq, Prod.mk.injEq] at h
       obtain ⟨rfl, hb⟩ := h
       simp only [Bool.and_eq_true, bne_iff_ne, ne_eq] at hb
-      refine ⟨_, rfl, build hb.1 ?_ (by simpa [validFilter] using hv)⟩
+      refine ⟨_, rfl, build (by simp only [Bool.and_eq_true]; exact hb.1) ?_ (by simpa [validFilter] using hv)⟩
       intro lo' hl
       rw [hlo] at hl
       injection hl with hl; subst hl
